@@ -72,6 +72,18 @@ def parse_meta(feature):
     return harnesses
 
 
+def ensure_replay_stubs():
+    """every harness module ends with `include!("replay/<module>.rs")` under cfg(test); the
+    directory is not tracked, so make sure an (empty) file exists for every module"""
+    rdir = os.path.join(KANI_DIR, "src", "replay")
+    os.makedirs(rdir, exist_ok=True)
+    for f in os.listdir(os.path.join(KANI_DIR, "src")):
+        if re.match(r"^c\d\d_\w+\.rs$", f):
+            p = os.path.join(rdir, f)
+            if not os.path.exists(p):
+                open(p, "w").write("")
+
+
 def sync_lock():
     """The harness crate resolves exactly the dependency versions /repo pins."""
     src = os.path.join(REPO, "Cargo.lock")
@@ -124,7 +136,7 @@ def base_cmd(feature):
 def build(feature, timeout=2400):
     """Compile /repo's current tree + the harness module to goto programs (no solving)."""
     os.makedirs(CACHE, exist_ok=True)
-    os.makedirs(os.path.join(KANI_DIR, "src", "replay"), exist_ok=True)
+    ensure_replay_stubs()
     sync_lock()
     rc, out, secs, to = _run(base_cmd(feature) + ["--only-codegen"], KANI_DIR, timeout)
     errs = [l for l in out.splitlines() if l.startswith("error")]
@@ -217,8 +229,8 @@ def replay(feature, h, keep_dir):
     tname = "kani_concrete_playback"
     vals = re.findall(r"//\s*(.+)\n\s*vec!\[", body)
     info.update({"generated": True, "tests": tnames, "values": vals[:32]})
+    ensure_replay_stubs()
     rdir = os.path.join(KANI_DIR, "src", "replay")
-    os.makedirs(rdir, exist_ok=True)
     rfile = os.path.join(rdir, h["module"] + ".rs")
     open(rfile, "w").write(body + "\n")
     env = dict(ENV)
